@@ -39,12 +39,16 @@ TECHNIQUE = "bounded-exhaustive enumeration of loop bodies (all template sequenc
 RULE = ("one evaluation = one frame delivered / one call made inside a pumped loop body, or one non-opening frame in layer (a); "
         "non-trivial = bodies that survive all iterations with constant live-stream count (plateau judged)")
 ALPHABET = "server templates: open, open_es, data, data_es, trailers, rst, rst_old, wu_old, prio_fresh, respond_es, reset, ack; client templates: req_es, req, resp_es, resp, data_es, push, pushresp_es, rst_promised, reset_promised, rst, prio_fresh, wu_old"
-BOUNDS = {"quick": "(b) all bodies of length <= 3, 300 iterations, cap 8", "thorough": "(b) additionally the stream-closing bodies of length <= 2 pumped 200,000 times with the real cap"}
+BOUNDS = {"quick": "(b) all bodies of length <= 3, 300 iterations, cap 8; bodies of length <= 2, 100 iterations, cap 0", "thorough": "(b) additionally the stream-closing bodies of length <= 2 pumped 200,000 times with the real cap"}
 sb = H.stateless_block
 
 
 class SmallCapConnection(H.h2.connection.H2Connection):
     MAX_CLOSED_STREAMS = 8
+
+
+class ZeroCapConnection(H.h2.connection.H2Connection):
+    MAX_CLOSED_STREAMS = 0          # legal: remember no closed stream at all
 
 
 def table_breakdown(conn):
@@ -75,7 +79,7 @@ class Pump:
     def __init__(self, client, cap_small):
         cfg = H.h2.config.H2Configuration(client_side=client)
         self.client = client
-        self.conn = (SmallCapConnection if cap_small else H.h2.connection.H2Connection)(config=cfg)
+        self.conn = (ZeroCapConnection if cap_small == "zero" else SmallCapConnection if cap_small else H.h2.connection.H2Connection)(config=cfg)
         if client:
             H.handshake_client(self.conn)
         else:
@@ -176,7 +180,7 @@ def model_live(conn):
 
 def job_bodies(job):
     client, bodies, N, small = job["client"], job["bodies"], job["N"], job["small"]
-    cap = 8 if small else 65536
+    cap = 0 if small == "zero" else 8 if small else 65536
     viols = {}
     outcomes = {}
     n = nt = 0
@@ -290,10 +294,15 @@ def job_static(job):
         if o.kind == "raise" and len(conn.incoming_buffer._headers_buffer) > 65:
             bad("continuation-buffer-kept", "buffered %d frames" % len(conn.incoming_buffer._headers_buffer), {"layer": "static", "client": client})
     # (c) header list size limits
-    for limit, later in ((65536, None), (100, None), (65537, None), (200, 60000), (60000, 200)):
+    for limit, later in ((65536, None), (100, None), (65537, None), (200, 60000), (60000, 200), (300, "with-table-size")):
         h = H.Solo(client)
         h.rx([wire.settings([], ack=True)])
-        if limit != 65536:
+        if later == "with-table-size":
+            # the limit changes together with HEADER_TABLE_SIZE in one SETTINGS frame
+            h.api("update_settings", {wire.S_HEADER_TABLE_SIZE: 8192, wire.S_MAX_HEADER_LIST_SIZE: limit})
+            later = None
+            h.rx([wire.settings([], ack=True)])
+        elif limit != 65536:
             h.api("update_settings", {wire.S_MAX_HEADER_LIST_SIZE: limit})
             if later is not None:
                 # a second change is already in flight when the first one is acknowledged: the ACKNOWLEDGED value binds
@@ -355,6 +364,9 @@ def run(ctx):
         nb += len(bodies)
         for i in range(0, len(bodies), 40):
             jobs.append({"fam": "bodies", "client": client, "bodies": bodies[i:i + 40], "N": 300, "small": True})
+        short = [b for b in bodies if len(b) <= 2]
+        for i in range(0, len(short), 40):
+            jobs.append({"fam": "bodies", "client": client, "bodies": short[i:i + 40], "N": 100, "small": "zero"})
         jobs.append({"fam": "static", "client": client})
         if not quick:
             closing = [b for k in (1, 2) for b in itertools.product(T, repeat=k)
